@@ -807,11 +807,28 @@ pub fn t_pipe(rng: &mut Rng, profile: &'static str, run_seed: u64, miri: bool, t
                 let id = if r < 38 { prog.add_op(0, Kind::Sync, Disp::None, vec![Step::Touch]) }
                     else if r < 68 { prog.add_op(0, Kind::Desync, Disp::None, vec![Step::Touch]) }
                     else if r < 84 {
+                        // (A queue left parked by a polled-and-abandoned future is only taken over by a FREE pool thread, section 4 of
+                        //  DESIGN.md. When the output stream of a pipe is dropped, the pipe's reference to its target is released on the
+                        //  crate's internal disposal queue, i.e. Desync::drop - which waits for the target's queue - may run on a pool
+                        //  thread: with a pool of one that thread would wait for a take-over only it could perform.)
+                        let abandon_ok = !(through && drop_output) || prog.pool >= 2;
                         let body = if rng.chance(1, 2) { vec![Step::Touch] } else { let g = prog.new_gate(); vec![Step::Touch, Step::Gate(g), Step::Touch] };
-                        prog.add_op(0, Kind::FutDesync, Disp::PollDrop(rng.range(1, 2) as u8), body) }
+                        prog.add_op(0, Kind::FutDesync, if abandon_ok { Disp::PollDrop(rng.range(1, 2) as u8) } else { Disp::Detach }, body) }
                     else if r < 94 { prog.add_op(0, Kind::FutDesync, Disp::Detach, vec![Step::Touch, Step::Yield, Step::Touch]) }
                     else { prog.add_op(0, Kind::TrySync, Disp::None, vec![Step::Touch]) };
                 acts.push(TAct::Op(id));
+            }
+            // sometimes the object is suspended for a while by one of these threads (only non-blocking operations between the suspend
+            // request and the resume): items that arrive meanwhile are held like any other work and must be processed, in order,
+            // after the resume
+            if cfg!(feature = "hooks") && !miri && rng.chance(1, 4) {
+                let nonblocking = |a: &TAct, prog: &Program| match a { TAct::Op(o) => matches!((prog.ops[*o].kind, prog.ops[*o].disp), (Kind::Desync, _) | (Kind::TrySync, _) | (Kind::FutDesync, Disp::Detach)), _ => false };
+                let at = rng.below(acts.len() as u64 + 1) as usize;
+                let mut end = at;
+                while end < acts.len() && nonblocking(&acts[end], &prog) && rng.chance(3, 4) { end += 1; }
+                let sus = prog.add_op(0, Kind::Suspend, Disp::Await, vec![]);
+                acts.insert(end, TAct::Resume(sus, rng.chance(2, 3)));
+                acts.insert(at, TAct::Op(sus));
             }
             if mortal { let at = rng.below(acts.len() as u64 + 1) as usize; let _ = at; acts.push(TAct::ReleaseMortal); }
             prog.threads.push(acts);
